@@ -1294,3 +1294,12 @@ def padded_file(src, dst, comment, total):
     with open(dst, "w") as f:
         f.write("\n".join(lines[:at] + pads + lines[at:]) + "\n")
     return dst
+
+
+def pool_map(fn, items, procs):
+    """fork pool whose workers may have children themselves (multiprocessing.Pool workers are daemonic)"""
+    import concurrent.futures
+    import multiprocessing
+
+    with concurrent.futures.ProcessPoolExecutor(max_workers=procs, mp_context=multiprocessing.get_context("fork")) as ex:
+        return list(ex.map(fn, items))
